@@ -900,3 +900,47 @@ def rule_expression_not_iterated(db: ProgramDB) -> List[Instance]:
         raise AnalysisError(f"only {n_names} expression-typed names found")
     return out
 
+
+
+# ---------------------------------------------------------------------------------- PULLED-SO-FAR-NOT-ASKED
+def rule_pulled_so_far_not_asked(db: ProgramDB) -> List[Instance]:
+    """`<variable>._domain_.values` is the memo of what has been PULLED from the supplied domain so far: empty for a one-shot iterator
+    nobody has advanced yet, partial afterwards.  Whether a domain was supplied, whether a variable is to be inferred, what to range over:
+    none of that may be decided by asking the memo, or the result of a query depends on which other query pulled from the shared iterator
+    before.  Rule: outside the container itself, no condition reads the memo (`.values`, `.pulled`) of a variable's domain; the only use is the
+    size hint of the cartesian-product warning."""
+    out = []
+    n = 0
+    for fn in sorted(db.all_functions(), key=lambda f: f.qualname):
+        if fn.module not in ("symbolic", "predicate", "entity", "conclusion", "conclusion_selector", "rule"):
+            continue
+        for x in own_nodes(fn.node):
+            if not (isinstance(x, ast.Attribute) and x.attr in ("values", "pulled") and isinstance(x.value, ast.Attribute) and x.value.attr == "_domain_"):
+                continue
+            par = db.parent(x)
+            if isinstance(par, ast.Call) and par.func is x:
+                continue                 # .values() of something else
+            # in a condition?
+            cond = False
+            p, ch = par, x
+            while p is not None and not isinstance(p, ast.stmt):
+                if isinstance(p, (ast.BoolOp, ast.IfExp, ast.Compare)) or (isinstance(p, ast.UnaryOp) and isinstance(p.op, ast.Not)) \
+                        or (isinstance(p, ast.Call) and isinstance(p.func, ast.Name) and p.func.id in ("len", "bool", "any", "all")):
+                    cond = True
+                ch, p = p, db.parent(p)
+            if isinstance(p, (ast.If, ast.While)) and any(y is x for y in ast.walk(p.test)):
+                cond = True
+            if not cond:
+                continue
+            n += 1
+            hint = fn.name.startswith("_warn")
+            out.append(inst("PULLED-SO-FAR-NOT-ASKED", INFO if hint else VIOLATION, fn, f"{fn.short}[{unparse(x)}]",
+                            "size hint of a warning: no result depends on it" if hint else
+                            f"`{unparse(x)}` is what has been pulled from the domain so far, and a condition reads it: for a domain given as a one-shot iterator the answer is "
+                            f"'nothing' until some evaluation has advanced it - a rule over such a variable yields nothing and pulls nothing, while the same rule after "
+                            f"another query pulled one element works", line=x.lineno))
+    out.append(inst("PULLED-SO-FAR-NOT-ASKED", HOLDS, "src/entity_query_language/symbolic.py", "evaluation code[the memo of a lazily read domain decides nothing]",
+                    f"{n} reads of a domain's memo in a condition found (the warning's size hint)"))
+    if n == 0:
+        raise AnalysisError("the detector found no read of a domain memo in a condition, not even the size hint of the warning")
+    return out
